@@ -47,6 +47,23 @@ ConsTags == {<<"U", 16>>, <<"U", 17>>, <<"C", 1>>, <<"A", 31>>, <<"P", 300>>}
 Payloads == {<<>>, <<5>>, <<255, 0>>, Zeros(127), Zeros(128)} \cup (IF Rich THEN {Zeros(256), <<0, 0>>, <<128>>} ELSE {})
 Prims == {PNode(t[1], t[2], lf, c) : t \in PrimTags, lf \in {"min"}, c \in Payloads}
          \cup {PNode("U", 4, "pad1", c) : c \in {<<>>, <<5>>, Zeros(128)}}
+\* primitive values of the universal types that unber interprets when it pretty-prints (default mode, no -p):
+\* well-formed contents and contents that are not values of the type
+TypedPrims ==
+  {PNode("U", 1, "min", c) : c \in {<<0>>, <<255>>, <<1, 2>>, <<>>}}
+  \cup {PNode("U", 2, "min", c) : c \in {<<0>>, <<128>>, <<127, 255, 255, 255, 255, 255, 255, 255>>, <<1, 0, 0, 0, 0, 0, 0, 0, 0>>, <<>>}}
+  \cup {PNode("U", 3, "min", c) : c \in {<<0>>, <<7, 128>>, <<8, 1>>, <<>>, <<0, 255, 255>>}}
+  \cup {PNode("U", 5, "min", c) : c \in {<<>>, <<0>>}}
+  \cup {PNode("U", 6, "min", c) : c \in {<<85, 4, 3>>, <<43, 14, 3, 2, 26>>, <<42, 134, 72, 134, 247, 13, 1, 1, 11>>, <<42>>, <<>>, <<128, 1>>, <<85, 129>>,
+                                         <<43, 6, 1, 4, 1, 1, 1, 1, 1, 1>>, <<255, 255, 255, 255, 255, 255, 255, 255, 255, 127>>, <<136, 55>>}}
+  \cup {PNode("U", 13, "min", c) : c \in {<<1, 2, 3>>, <<>>, <<129>>, <<200, 60, 3>>}}
+  \cup {PNode("U", 9, "min", c) : c \in {<<>>, <<64>>, <<128, 0, 1>>, <<3, 49, 46, 69, 48>>, <<131, 2, 252, 2, 1>>, <<128>>}}
+  \cup {PNode("U", 10, "min", c) : c \in {<<5>>, <<>>}}
+  \cup {PNode("U", n, "min", c) : n \in {12, 19, 22, 26}, c \in {<<72, 105>>, <<>>, <<255, 254>>, <<60, 38, 62>>}}
+  \cup {PNode("U", 23, "min", c) : c \in {<<48, 49, 48, 50, 48, 51, 48, 52, 48, 53, 48, 54, 90>>, <<48, 49, 48, 50, 48, 51, 48, 52, 48, 53, 90>>, <<90>>, <<>>}}
+  \cup {PNode("U", 24, "min", c) : c \in {<<50, 48, 48, 49, 48, 50, 48, 51, 48, 52, 48, 53, 48, 54, 46, 53, 90>>, <<50, 48, 48, 49, 48, 50, 48, 51, 48, 52>>, <<50, 48>>, <<>>}}
+  \cup {PNode("U", 30, "min", c) : c \in {<<0, 72, 0, 105>>, <<0>>, <<>>}}
+  \cup {PNode("U", 28, "min", c) : c \in {<<0, 0, 0, 72>>, <<0, 0, 1>>}}
 SomePrims == {PNode("U", 2, "min", <<5>>), PNode("C", 31, "min", <<>>), PNode("U", 4, "min", <<255, 0>>)}
               \cup (IF Rich THEN {PNode("P", 16384, "min", Zeros(127)), PNode("U", 4, "pad1", <<5>>)} ELSE {})
 KidSeqs(S) == {<<>>} \cup {<<a>> : a \in S} \cup {<<a, b>> : a \in S, b \in S}
@@ -58,7 +75,8 @@ D3 == {CNode("U", 16, lf, <<x>>) : lf \in {"min", "indef"}, x \in {CNode("C", 1,
 \* long primitives followed by siblings: the printed line length sweeps over every residue of the tools' I/O chunk size
 LongSweep == IF Rich THEN {<<CNode("U", 16, "min", <<PNode("U", 4, "min", Zeros(n)), PNode("U", 2, "min", <<5>>), PNode("U", 5, "min", <<>>)>>)>> : n \in 1300..2800}
              ELSE {<<CNode("U", 16, "min", <<PNode("U", 4, "min", Zeros(n)), PNode("U", 2, "min", <<5>>)>>)>> : n \in {1364, 1365, 1366, 2719, 2730}}
-Forests == {<<n>> : n \in Prims \cup D1 \cup D2 \cup D3}
+Forests == {<<n>> : n \in Prims \cup D1 \cup D2 \cup D3 \cup TypedPrims}
+           \cup {<<CNode("U", 16, lf, <<a, PNode("U", 5, "min", <<>>)>>)>> : a \in TypedPrims, lf \in {"min", "indef"}}
            \cup {<<a, b>> : a \in SomeD1 \cup SomePrims, b \in SomeD1 \cup SomePrims}
            \cup LongSweep
 
@@ -89,7 +107,11 @@ Ev == Log[l]
 TFaults(sc, ev) ==
   IF sc.mode = "mutate"
   THEN When(ev.unber_signal # 0, "unber-died") \cup When(ev.unber_signal = 0 /\ ev.unber_exit # 0 /\ ~ev.unber_diag, "failure-without-diagnostic")
+       \cup When(ev.pretty_signal # 0, "unber-died-pretty-printing")
   ELSE When(ev.unber_signal # 0, "unber-died")
+       \* default mode (values of known universal types are interpreted): the same TLV structure, so it ends by exit 0 too
+       \cup When(ev.pretty_signal # 0, "unber-died-pretty-printing")
+       \cup When(ev.pretty_signal = 0 /\ ev.pretty_exit # 0, "well-formed-input-rejected-pretty-printing")
        \cup When(ev.unber_signal = 0 /\ ev.unber_exit # 0, "well-formed-input-rejected")
        \cup When(ev.unber_exit = 0 /\ ev.fields # sc.fields, "printed-fields-differ")
        \cup When(ev.unber_exit = 0 /\ ev.enber_signal # 0, "enber-died")
